@@ -11,6 +11,8 @@ clang; plus a recovering gcc build that lists every UBSan site instead of stoppi
   * modules that make the translator reserve many array slots at once / grow its arrays far (harness/reserve_many.py:
     name sections naming 9..300 functions read under -g, deep operand stacks, deep nesting, large br_table, hundreds
     of types/imports/globals/exports/segments) x option sets,
+  * module / REFERENCE pairs for -r (harness/ref_modules.py), the dead-code family (harness/dead_code.py), and data-segment modules
+    (empty / all-zero / passive segments; tools/checks/initmem.py generators + minimal ones) under EVERY -d mode x -p/-f/-t/-g/-m/-c,
 and the verdict of `Model.Reader` (accept / reject / which undefined operation) is compared with what the real
 reader did.  The growable-array primitive itself (array.c/array.h, regenerated into Gen/Array and proved in
 Props/C10Array) is additionally run in-process under ASan against `Model.Array` on reservation sequences.  A sanitizer report, a signal or an abort is real-side undefined behaviour: each distinct site is a
@@ -35,8 +37,48 @@ from common import prove, leanchecker
 from vlib import log
 
 PROP = "C10"
-MODULES = ["W2c2Verif.Props.C10", "W2c2Verif.Props.C10Array", "W2c2Verif.Props.C10Writer"]
-GENS = [("Reader", "gen_reader"), ("Array", "gen_array"), ("ImplWriter", "gen_implwriter")]
+MODULES = ["W2c2Verif.Props.C10", "W2c2Verif.Props.C10Array", "W2c2Verif.Props.C10Writer", "W2c2Verif.Props.C10Blob"]
+GENS = [("Reader", "gen_reader"), ("Array", "gen_array"), ("ImplWriter", "gen_implwriter"), ("BlobWriter", "gen_blobwriter")]
+DATA_MODES = ("arrays", "gnu-ld", "sectcreate1", "sectcreate2")
+DATA_EXTRA = [[], ["-p"], ["-f", "1"], ["-t", "2", "-f", "2"], ["-g", "-t", "1"], ["-p", "-m", "-f", "3", "-t", "4"], ["-c", "-t", "1"]]
+
+
+def data_segment_modules(seed, tier):
+    """[(label, wasm bytes)]: modules centred on data segments — EMPTY (active and passive), all-zero, passive between active ones,
+    overlapping, offsets by global.get, memories defined / imported / shared — from tools/checks/initmem.py (directed + seeded) plus
+    minimal hand-built ones with only empty segments."""
+    import random
+    import initmem
+    import wasmgen.wasm_ast as A
+    from wasmgen import encode
+    I = A.Instr
+    out = [("data:directed:" + name.replace(".json", ""), encode(m)) for name, _note, m, _imp, _calls in initmem.directed_modules()]
+
+    def tiny(tag, segs, datacount=None):
+        m = A.Module()
+        m.types = [A.FuncType([], [A.I32])]
+        m.mems = [A.Limits(1, 2)]
+        m.datas = segs
+        m.datacount = datacount
+        m.funcs = [A.Function(0, [], [I("i32.const", 16), I("i32.load8_u", 0, 0)])]
+        m.exports = [A.Export(b"ld", "func", 0)]
+        out.append(("data:tiny:" + tag, encode(m)))
+    tiny("one-empty-active", [A.DataSegment("active", b"", I("i32.const", 16), 0)])
+    tiny("one-empty-passive", [A.DataSegment("passive", b"")], 1)
+    tiny("empty-at-end-of-memory", [A.DataSegment("active", b"", I("i32.const", 65536), 0)])
+    tiny("empty-first-then-data", [A.DataSegment("active", b"", I("i32.const", 0), 0), A.DataSegment("active", b"abc", I("i32.const", 16), 0)])
+    tiny("data-then-empty-last", [A.DataSegment("active", b"abc", I("i32.const", 16), 0), A.DataSegment("active", b"", I("i32.const", 19), 0)])
+    tiny("empty-passive-between", [A.DataSegment("active", b"ab", I("i32.const", 16), 0), A.DataSegment("passive", b""), A.DataSegment("active", b"cd", I("i32.const", 18), 0)], 3)
+    tiny("many-empty", [A.DataSegment("active", b"", I("i32.const", k), 0, enc_flag=(0, 2)[k % 2]) for k in range(9)])
+    tiny("all-zero", [A.DataSegment("active", bytes(40), I("i32.const", 8), 0)])
+    for k, force in enumerate((["empty"], ["active", "empty", "active"], ["empty", "passive", "empty", "zero"], ["passive", "passive", "empty"],
+                               ["zero", "empty", "overlap", "empty"])):
+        for kind in ("defined", "imported") if tier == "quick" else ("defined", "imported", "shared", "shared-imported"):
+            m, _imp, _calls = initmem.build_data_module(random.Random("c10-data:%d:%s" % (k, kind)), kind, force=force)
+            out.append(("data:forced:%d:%s" % (k, kind), encode(m)))
+    for spec in initmem.data_specs(seed, 10 if tier == "quick" else 150):
+        out.append(("data:" + spec["id"], bytes.fromhex(spec["hex"])))
+    return out
 READERDRIVER = os.path.join(vlib.LEAN, ".lake", "build", "bin", "readerdriver")
 
 SAN = ["-O1", "-g", "-fsanitize=address,undefined", "-fno-omit-frame-pointer"]
@@ -179,7 +221,8 @@ def witnesses():
 
 OPTION_SETS = [[], ["-p"], ["-m"], ["-g"], ["-f", "1"], ["-f", "3", "-p"], ["-t", "2"], ["-t", "4", "-f", "2"],
                ["-g", "-t", "2", "-f", "1"], ["-g", "-p", "-m"], ["-c"], ["-d", "gnu-ld"], ["-d", "sectcreate1", "-t", "1"],
-               ["-g", "-t", "1", "-f", "2"], ["-t", "1"], ["-t", "3", "-g"]]
+               ["-g", "-t", "1", "-f", "2"], ["-t", "1"], ["-t", "3", "-g"], ["-p", "-d", "sectcreate2"], ["-f", "2", "-t", "2", "-d", "gnu-ld"],
+               ["-g", "-t", "1", "-d", "sectcreate1"]]
 
 
 def array_lines(rng, tier):
@@ -338,6 +381,20 @@ def run(tier):
         chk.coverage["dead_code_modules_rejected_by_v8"] = ninvalid
         if ninvalid:
             chk.notes.append(f"dead-code generator produced {ninvalid} module(s) V8 rejects; they were skipped")
+        # data segments (empty, all-zero, passive, ...) x EVERY -d mode x -p/-f/-t/-g/-m/-c: exit status 0, no report (seeded C10/8:
+        # an EMPTY segment was reported as a write error by the blob writer of the external modes -> abort())
+        ndata = nempty = 0
+        for k, (label, data) in enumerate(data_segment_modules(chk.seed, tier)):
+            if _v8 is not None and not _v8.validate(data):
+                chk.notes.append(f"data-segment module {label} is rejected by V8; skipped")
+                continue
+            ndata += 1
+            for mi, mode in enumerate(DATA_MODES):
+                extras = DATA_EXTRA if tier == "thorough" else [DATA_EXTRA[(k + mi + j * 3) % len(DATA_EXTRA)] for j in range(2)]
+                for j, extra in enumerate(extras):
+                    valid.append((label, data, list(extra) + ["-d", mode], ASAN_LATER, ("gcc-strict", "clang-strict", "gcc-recover")[(k + mi + j) % 3]))
+        chk.coverage["data_segment_modules"] = ndata
+        chk.coverage["data_segment_modes"] = list(DATA_MODES)
         nmod = 4 if tier == "quick" else 30
         small = []
         for profile in PROFILES:
@@ -476,6 +533,8 @@ def run(tier):
         what = DESCR.get(key, f"the instrumented translator reports {f['reports'][:1] or f['signal'] or f['rc']} on a "
                          + ("valid module" if True else ""))
         extra = {}
+        if str(f.get("label") or "").startswith("data:"):
+            what += f" (data-segment module {f['label']}; w2c2 {' '.join(f['opts'])})"
         if str(f.get("label") or "").startswith("dead-code:"):
             what += f" (function {f['label']}: unreachable code on a polymorphic stack; w2c2 {' '.join(f['opts'])})"
         if f.get("ref") is not None:
